@@ -112,7 +112,7 @@ def run_design(ctx, want):
 
 # ------------------------------------------------------------------ layer (a): ingress replay
 
-def gen_cfg(pool, npools, dup, batch, nlocal, c0s, late, keys=("k1", "k2"), vers=(1, 2, 3), fail=0):
+def gen_cfg(pool, npools, dup, batch, nlocal, c0s, late, keys=("k1", "k2"), vers=(1, 2, 3), fail=0, rfail=0):
     return """SPECIFICATION GSpec
 CONSTANTS
   Host = 2
@@ -127,9 +127,27 @@ CONSTANTS
   C0s = %s
   LateSub = %s
   MaxFail = %d
+  MaxReadFail = %d
 INVARIANTS Emit GOrderIndependence
 CHECK_DEADLOCK FALSE
-""" % (tset(keys), nset(vers), pool, npools, dup, batch, nlocal, nset(c0s), "TRUE" if late else "FALSE", fail)
+""" % (tset(keys), nset(vers), pool, npools, dup, batch, nlocal, nset(c0s), "TRUE" if late else "FALSE", fail, rfail)
+
+
+STALL_N, STALL_LATE_AT, STALL_MIN_ACCEPTED = 120, 50, 70
+
+
+def stall_cfg():
+    """AspenKVStallGen: long single-operation streams; a stalled subscriber + fast ones."""
+    return """SPECIFICATION SSpec
+CONSTANTS
+  Host = 2
+  Remote = {1, 3}
+  Key = {"k1", "k2"}
+  N = %d
+  LateAt = %d
+INVARIANTS SEmit
+CHECK_DEADLOCK FALSE
+""" % (STALL_N, STALL_LATE_AT)
 
 
 def gen_runs(tier):
@@ -154,7 +172,12 @@ def gen_runs(tier):
         ("f1", dict(pool=1, npools=0, dup=1, batch=2, nlocal=0, c0s=[0], late=True, fail=1)),
         ("f2", dict(pool=2, npools=40 if q else 0, dup=0, batch=2, nlocal=0, c0s=[0], late=False, fail=1)),
         ("f2loc", dict(pool=2, npools=5 if q else 40, dup=0, batch=2, nlocal=1, c0s=[0, 1], late=True, fail=1)),
+        # rfail=1: in exactly one request per history ONE digest read of the ingress transaction meets
+        # a transient (not "not found") storage fault: that operation must be treated as not superseding
+        ("r1", dict(pool=1, npools=0, dup=1, batch=2, nlocal=0, c0s=[0], late=False, rfail=1)),
+        ("r2", dict(pool=2, npools=20 if q else 0, dup=1, batch=2, nlocal=0, c0s=[0], late=False, rfail=1)),
     ] + ([] if q else [
+        ("r3", dict(pool=3, npools=40, dup=0, batch=3, nlocal=0, c0s=[0], late=False, rfail=1)),
         ("f2dup", dict(pool=2, npools=60, dup=1, batch=3, nlocal=0, c0s=[0], late=False, fail=1)),
         ("f3", dict(pool=3, npools=60, dup=0, batch=3, nlocal=0, c0s=[0], late=False, fail=1)),
     ])
@@ -232,10 +255,33 @@ def run_ingress(ctx, want):
                 raise vlib.Inconclusive("no histories generated (%s)" % tag)
             n += k
             fams.append({"family": tag, "histories": k, "pools": "all" if kw["npools"] == 0 else kw["npools"],
-                         "tlc_wall_s": round(r.wall, 1), "fail": kw.get("fail", 0),
+                         "tlc_wall_s": round(r.wall, 1), "fail": kw.get("fail", 0), "rfail": kw.get("rfail", 0),
                          **{x: kw[x] for x in ("pool", "dup", "batch", "nlocal")}})
+        # long streams with a stalled subscriber (TLC simulation, seeded): C13 completeness for the
+        # subscribers that keep up while one does not
+        nstall = 3 if ctx.tier != "thorough" else 24
+        r = ctx.tlc(AREA, "AspenKVStallGen", "stall.cfg", files={"stall.cfg": stall_cfg()}, simulate="num=%d" % nstall,
+                    depth=STALL_N + 6, workers=1, tag="gen_stall", timeout=600)
+        seen, k = set(), 0
+        for h in r.hists():
+            key = json.dumps(h, sort_keys=True)
+            if key in seen or k >= nstall or sum(len(x.get("acc") or []) for x in h) < STALL_MIN_ACCEPTED:
+                continue
+            seen.add(key)
+            f.write(json.dumps(h, separators=(",", ":")) + "\n")
+            k += 1
+        if k == 0:
+            raise vlib.Inconclusive("no stall histories generated")
+        n += k
+        fams.append({"family": "stall", "histories": k, "requests": STALL_N, "late_subscribers_at": STALL_LATE_AT, "tlc_wall_s": round(r.wall, 1)})
     summ, bad = replay_ingress(ctx, hp, "rp_all", kinds=kinds)
     stats = summ.get("stats") or {}
+    hard0 = [x for x in bad if x.get("r") == "mismatch"]
+    if not hard0:
+        vac = {"syncreads": stats.get("syncreads", 0), "stall_histories": stats.get("stall_histories", 0),
+               "stall_lost": stats.get("stall_lost", 0)}
+        if any(v == 0 for v in vac.values()) or stats.get("stall_accepted", 0) < STALL_MIN_ACCEPTED * vac["stall_histories"]:
+            raise vlib.Inconclusive("vacuous run: read faults / stalled-subscriber overflow not exercised: %s" % dict(vac, stall_accepted=stats.get("stall_accepted", 0)))
     if any(kw.get("fail") for _, kw in runs) and not stats.get("syncfails") and not [x for x in bad if x.get("r") != "soft"]:
         raise vlib.Inconclusive("vacuous run: no request with a failing ingress commit was replayed (syncfails=0)")
     hardbad = [b for b in bad if b.get("r") != "soft"]
@@ -246,8 +292,11 @@ def run_ingress(ctx, want):
         raise vlib.Inconclusive("replayed %s of %s histories" % (summ["replayed"], n))
     total = summ["replayed"]
     judged = 0
-    for b in bad:
+    # mismatches first; a history the harness could not finish is only inconclusive when nothing was found
+    for b in sorted(bad, key=lambda x: x.get("r") == "inconclusive"):
         if b.get("r") == "inconclusive":
+            if ctx.violations:
+                continue
             raise vlib.Inconclusive("harness inconclusive: %s" % json.dumps(b)[:400])
         kind = b.get("kind")
         if kind in DRIFT_KINDS:
